@@ -21,6 +21,8 @@ from ...module import Module
 from ...portref import PortRef
 from ...bundle import BundleInstance, BundleRef, AnonymousBundle
 from ...signal import PortDir, Signal, Visibility
+from ...slice import Slice
+from ...concat import Concat
 from ...noconn import NoConn
 from ..helpers.resolve_ref_types import update_ref_deps
 
@@ -31,7 +33,7 @@ from .base import ElabPass
 # i.e. the things which we are resolve `PortRef`s *to*.
 # If we find one of these connected to a group of connected ports,
 # it becomes the replacement connection for all of them.
-Source = Union[Signal, BundleInstance, BundleRef, AnonymousBundle]
+Source = Union[Signal, Slice, Concat, BundleInstance, BundleRef, AnonymousBundle]
 
 # Union of the types which can serve as (generalized) Ports:
 # either Signals or Bundle Instances
